@@ -80,6 +80,9 @@ def handle (op : String) (args : List String) : Option String :=
       match meaning codingF f with
       | none => pure "false"
       | some m => pure (boolStr (meshStr m == " ".intercalate rest))
+  | "c08.holds.header_cut_rejected" =>
+      -- args: cut position, result class of ply.ReadHeader on the strict prefix; theorem ply_header_cut_bytes: an error
+      some (boolStr (match args with | [_, "err"] => true | _ => false))
   | "c08.holds.entrypoints_agree" | "c08.holds.header_entrypoints_agree" | "c08.holds.save_agrees" =>
       some (boolStr (allSegmentsEqual args))
   | _ => none
